@@ -138,11 +138,46 @@ def circles_art():
         arts.append([''.join(r).rstrip() for r in rows])
     return arts
 
+def arcs_art():
+    """the arc drawings of the three derived tables, rebuilt from the dumped spans"""
+    arts = []
+    for name in ('quarter', 'half', 'three'):
+        for l in open(os.path.join(TABLES, 'arcs_%s.txt' % name)):
+            l = l.rstrip('\n')
+            if not l: continue
+            _, span = l.split('\t')
+            cells = [tuple(int(v) for v in c.split(',')) for c in span.split(';')]
+            x0 = min(c[0] for c in cells); y0 = min(c[1] for c in cells)
+            w = max(c[0] for c in cells) - x0 + 1; h = max(c[1] for c in cells) - y0 + 1
+            rows = [[' '] * w for _ in range(h)]
+            for x, y, ch in cells: rows[y - y0][x - x0] = chr(ch)
+            arts.append((name, [''.join(r).rstrip() for r in rows]))
+    return arts
+
+def arc_with_legs(rng, arts):
+    """an arc drawing with extra characters attached below / beside it"""
+    name, rows = rng.choice(arts)
+    rows = list(rows)
+    w = max(len(r) for r in rows)
+    k = rng.choice(['legs', 'legs', 'side', 'plain'])
+    if k == 'legs':
+        last = rows[-1]
+        xs = [i for i, ch in enumerate(last) if ch != ' ']
+        if xs:
+            for _ in range(rng.randint(1, 3)):
+                leg = [' '] * w
+                leg[xs[0]] = '|'; leg[xs[-1]] = '|'
+                rows.append(''.join(leg).rstrip())
+    elif k == 'side':
+        j = rng.randrange(len(rows))
+        rows[j] = rows[j].ljust(w) + rng.choice(['--', '-', 'ab', '+'])
+    return rows
+
 def g_shape(rng, n):
     out = []
     arts = None
     for i in range(n):
-        kind = rng.choice(['box', 'rbox', 'run', 'arrow', 'bullet', 'circle', 'nested', 'ubox', 'tagbox', 'multi'])
+        kind = rng.choice(['box', 'rbox', 'run', 'arrow', 'bullet', 'circle', 'nested', 'ubox', 'tagbox', 'multi', 'arc', 'arc'])
         x = rng.choice([0, 0, 1, 2, 5]); y = rng.choice([0, 0, 1, 3])
         if kind == 'box':
             w = rng.randint(0, 12); h = rng.randint(0, 5)
@@ -189,6 +224,9 @@ def g_shape(rng, n):
             rows = list(rng.choice(arts))
             if rng.random() < 0.3:
                 rows = overlay(rows, [rng.choice(['ab', '--', '+', '*'])], len(max(rows, key=len)) + rng.randint(1, 3), rng.randint(0, len(rows)))
+        elif kind == 'arc':
+            if not hasattr(g_shape, '_arcs'): g_shape._arcs = arcs_art()
+            rows = arc_with_legs(rng, g_shape._arcs)
         elif kind == 'nested':
             depth = rng.randint(2, 4)
             w = 2 * depth + rng.randint(1, 4); h = 2 * depth
